@@ -18,9 +18,14 @@ def main():
     cases = json.load(sys.stdin)
     shuffle_seed = int(os.environ.get('VERIF_CHILD_SHUFFLE', '0'))
     rng = random.Random(shuffle_seed)
-    out = []
-    for c in cases:
-        c = json.loads(json.dumps(c))
+    # every child builds the cases in its own order: whatever an earlier build leaves behind in the process
+    # (caches, mutated shared objects) then differs from child to child
+    order = list(range(len(cases)))
+    if shuffle_seed:
+        random.Random(shuffle_seed * 7919 + 1).shuffle(order)
+    out = [None] * len(cases)
+    for idx in order:
+        c = json.loads(json.dumps(cases[idx]))
         orders = {}
         for k, v in c['cfg']['ports'].items():
             if 'names' in v:
@@ -30,10 +35,10 @@ def main():
         r = G.build_real(c)
         if isinstance(r, tuple):
             res = r[1]
-            out.append({'files': [[f.filename, hashlib.sha256(f.contents.encode('utf-8')).hexdigest(), f.hash]
-                                  for f in res.files], 'orders': orders})
+            out[idx] = {'files': [[f.filename, hashlib.sha256(f.contents.encode('utf-8')).hexdigest(), f.hash]
+                                  for f in res.files], 'orders': orders}
         else:
-            out.append({'err': r['err'], 'orders': orders})
+            out[idx] = {'err': r['err'], 'orders': orders}
     json.dump(out, sys.stdout)
 
 
